@@ -154,6 +154,25 @@ func TestVerifC18(t *testing.T) {
 		}
 	}
 	emit("empty", int(language.C), nil)
+	// directed: every language's own delimiters combined with each quote character, escapes and
+	// comment bodies — longer than the exhaustive strings, aimed at quote/escape/comment interplay
+	for lang := 0; lang <= int(language.Yaml)+1; lang++ {
+		l := language.Language(lang)
+		sl, ms, me := l.SingleLineCommentStart(), l.MultilineCommentStart(), l.MultilineCommentEnd()
+		k := 0
+		for _, q := range []string{"\"", "'", "`", "'''", "\"\"\""} {
+			for _, body := range []string{"\\", "a", "", "\\\\", "a\\", "\\" + q, "x" + sl + "y", ms + "z" + me, "\n"} {
+				for _, tail := range []string{sl + "c1\n", ms + "c2" + me, " " + sl + "c3", sl + "c4\n" + q + sl + "c5" + q + "\n" + sl + "c6", ms + me + ms + "c7" + me} {
+					emit(fmt.Sprintf("d%d_%d", lang, k), lang, []byte(q+body+q+tail))
+					k++
+				}
+			}
+		}
+		for _, t := range []string{ms + me + sl + "a\n", ms + ms + "n" + me + "m" + me + sl + "b", sl + "x" + ms + "y\n" + me, ms + "u\nv" + me + "\n" + sl + "w"} {
+			emit(fmt.Sprintf("d%d_%d", lang, k), lang, []byte(t))
+			k++
+		}
+	}
 	// ChunkIterator on random line patterns
 	nc := 200
 	if vthorough() {
